@@ -291,7 +291,12 @@ class SymReal(object):
                 c.add(s > 0)
             else:
                 c.add(z3.And(s >= 0, (s == 0) == (self.rt == 0)))
+            mine = _poly(self.rt, {})
             for a0, s0 in c.sqrts:
+                if mine is not None and _poly(a0, {}) is not None:
+                    # two different polynomials agree only on a null set of inputs; leaving the roots unrelated there is a
+                    # (sound) over-approximation and keeps nonlinear atoms out of the path condition
+                    continue
                 c.add(z3.Implies(self.rt == a0, s == s0))
             c.sqrts.append((self.rt, s))
             return SymReal(s)
